@@ -198,3 +198,6 @@ def native_replay(rep):
     if bad is None:
         return {"confirmed": False, "observed": f"no violation among {n} generated inputs/histories"}
     return {"confirmed": True, "observed": bad, "found_by": f"bounded input/history generation ({n} cases)"}
+
+# exporting learned signatures is a read: nothing the membrane decides with is changed by it
+contract(TM + ".export_antibodies", "C10", raises=[], modifies=[], ensures={})
